@@ -53,11 +53,47 @@ def _pick(v, lo, hi):
     raise ValueError(v)
 
 
+APPEND_TRUE = [True, 1, "numpy.bool_"]      # truthy values a caller may pass (np.bool_: result of .any(), comparisons)
+APPEND_KIND = [0]
+
+
+def _append_value():
+    import numpy as np
+    v = APPEND_TRUE[APPEND_KIND[0]]
+    return np.bool_(True) if v == "numpy.bool_" else v
+
+
+def h_write_append_truthy(ia: int, ic: int, ist: int, have: int) -> bool:
+    """
+    pre: 0 <= ia <= 2 and 0 <= ic <= 3 and 0 <= ist <= 3 and 0 <= have <= 1
+    post: __return__
+    """
+    # append given as any true value (documented: bool or 'overwrite'): the existing dataset is appended to, never
+    # re-created
+    APPEND_KIND[0] = _pick(ia, 0, 2)
+    try:
+        return _h_write_append_options(ic, ist, 5, have, have, False, True)
+    finally:
+        APPEND_KIND[0] = 0
+
+
+def replay_h_write_append_truthy(ia, ic, ist, have):
+    APPEND_KIND[0] = ia
+    try:
+        return replay_h_write_append_options(ic, ist, 5, have, have, False, True)
+    finally:
+        APPEND_KIND[0] = 0
+
+
 def h_write_append_options(ic: int, ist: int, rgo: int, req: int, have: int, part: bool, same_part: bool) -> bool:
     """
     pre: 0 <= ic <= 3 and 0 <= ist <= 3 and 1 <= rgo <= 1 << 40 and 0 <= req <= 1 and 0 <= have <= 1
     post: __return__
     """
+    return _h_write_append_options(ic, ist, rgo, req, have, part, same_part)
+
+
+def _h_write_append_options(ic, ist, rgo, req, have, part, same_part):
     # (simple and hive datasets; drill appends are h_append_scheme's subject)
     # write(..., append=True) on an existing dataset: scheme / partition mismatches are refused before anything is
     # written; otherwise ParquetFile.write_row_groups receives the caller's row_group_offsets, compression, stats,
@@ -75,7 +111,7 @@ def h_write_append_options(ic: int, ist: int, rgo: int, req: int, have: int, par
     try:
         try:
             writer.write("d", _Frame(["x"]), row_group_offsets=rgo, compression=comp, file_scheme=scheme, open_with=ow,
-                         mkdirs=mk, partition_on=partition_on, append=True, stats=stats)
+                         mkdirs=mk, partition_on=partition_on, append=_append_value(), stats=stats)
         except ValueError:
             raised = True
     finally:
@@ -112,7 +148,7 @@ def replay_h_write_append_options(ic, ist, rgo, req, have, part, same_part):
         pon = (kw.get("partition_on", []) if same_part else ["other"])
         for rep in range(2):
             try:
-                fastparquet.write(dn, df, file_scheme=scheme, append=True, compression=comp, stats=stats,
+                fastparquet.write(dn, df, file_scheme=scheme, append=_append_value(), compression=comp, stats=stats,
                                   partition_on=pon if scheme != "simple" else [], row_group_offsets=[0, 2])
             except ValueError:
                 return False, "refused"
